@@ -319,22 +319,8 @@ func (tp *TableParser) parseCellParagraph(p paragraphXML) parsedParagraph {
 		parsed.Alignment = resolved.Alignment
 	}
 
-	// Extract text
-	var textParts []string
-
-	// Direct text content
-	if p.Text != "" {
-		textParts = append(textParts, p.Text)
-	}
-
-	// Text from spans
-	for _, span := range p.Spans {
-		if span.Text != "" {
-			textParts = append(textParts, span.Text)
-		}
-	}
-
-	parsed.Text = strings.Join(textParts, "")
+	// p.Text is the complete inline text in document order (see decodeInline)
+	parsed.Text = p.Text
 
 	return parsed
 }
